@@ -1,13 +1,15 @@
-\* thorough tier, exhaustive: call on two objects ; in-place edit ; probe (same call, ring operators, other policies, fill methods)
+\* thorough tier, MC of the clauses on every history: call on two objects ; in-place edit ; probe (same call, ring operators,
+\* other policies, fill methods) - series heaps
 CONSTANTS MaxSteps = 3
           FreeSteps = 1
-          Scope = "quick"
+          Scope = "series"
           Caller = FALSE
           Edits = TRUE
           Pairs = "only"
           Extend = FALSE
+          Mech = TRUE
 INIT Init
-NEXT NextGen
+NEXT NextE
 INVARIANT PoolUntouched
 INVARIANT ResultByOriginal
 INVARIANT RightListPinned
